@@ -195,6 +195,19 @@ def run(index: RepoIndex, rep) -> None:
                       ml, f'{o} * Area axis {"yx"[axis]} -> {got}',
                       f'{o} * area: {"yx"[axis]}-interval is {got}, the image of the box under '
                       f'M({o}) is {exp}', f'area {o} axis {axis}')
+            # special cases the operator makes on the bounds (`if ymax == height // 2: ..`):
+            # each must be the same image, specialised to that case
+            for desc, val in g.AR_cases[o]:
+                sub = getattr(desc, 'sub', {})
+                if not sub:
+                    continue
+                exp_c = tuple(x.subst(sub) for x in exp)
+                got_c = tuple(val[1][axis])
+                if got_c != exp_c:
+                    rep.violation('C18.R3', f, 'Orientation.__mul__', ml,
+                                  f'{o} * Area axis {"yx"[axis]} when {desc}',
+                                  f'{o} * area when {desc}: the {"yx"[axis]}-interval is '
+                                  f'{got_c}, the image of the box under M({o}) is {exp_c}')
 
     # ---- R4 position ops
     S = Aff.sym
